@@ -13,6 +13,7 @@ import (
 	"math"
 	"math/big"
 	"reflect"
+	"strings"
 	"time"
 
 	"gorm.io/gorm"
@@ -118,8 +119,12 @@ func kindOfType(t reflect.Type, ser string) Kind {
 		return Kind{K: "custom", Of: &Kind{K: "str"}}
 	case reflect.TypeOf(Cents{}):
 		return Kind{K: "custom", Of: &Kind{K: "int", W: 64}}
-	case reflect.TypeOf(Pts{}):
+	case reflect.TypeOf(Pts{}), reflect.TypeOf(Price(0)):
 		return Kind{K: "custom", Of: &Kind{K: "int", W: 64}}
+	case reflect.TypeOf(Code("")):
+		return Kind{K: "custom", Of: &Kind{K: "str"}}
+	case reflect.TypeOf(CSV{}), reflect.TypeOf(KV{}):
+		return Kind{K: "custom", Of: &Kind{K: "ptr", Of: &Kind{K: "str"}}} // stored as text, nil as NULL
 	case reflect.TypeOf(gorm.DeletedAt{}):
 		return Kind{K: "null", Of: &Kind{K: "time"}}
 	case reflect.TypeOf(Enc("")):
@@ -203,6 +208,12 @@ func canon(k Kind, v reflect.Value) Val {
 		dv, err := v.Interface().(driver.Valuer).Value()
 		if err != nil {
 			return vStr("!err:" + err.Error())
+		}
+		if k.Of.K == "ptr" { // nullable encoding
+			if dv == nil {
+				return vNil
+			}
+			return vSome(canonDyn(dv))
 		}
 		return canonDyn(dv)
 	case "ser":
@@ -337,6 +348,19 @@ func build(k Kind, val Val, t reflect.Type) reflect.Value {
 			out.SetInt(n.Int64())
 		case reflect.TypeOf(Tag{}):
 			out.Field(0).SetString(val.S[4:])
+		case reflect.TypeOf(Price(0)):
+			n, _ := new(big.Int).SetString(val.Z, 10)
+			out.SetInt(n.Int64() / 100)
+		case reflect.TypeOf(Code("")):
+			out.SetString(strings.TrimPrefix(val.S, "enc:"))
+		case reflect.TypeOf(CSV{}), reflect.TypeOf(KV{}):
+			if val.T == "some" {
+				p := reflect.New(t)
+				if err := p.Interface().(sql.Scanner).Scan(val.V.S); err != nil {
+					panic(err)
+				}
+				out.Set(p.Elem())
+			}
 		case reflect.TypeOf(Cents{}), reflect.TypeOf(Pts{}):
 			n, _ := new(big.Int).SetString(val.Z, 10)
 			out.Field(0).SetInt(n.Int64())
